@@ -191,6 +191,17 @@ def _grids(tier, rnd):
                     g2 = g.copy()
                     g2[1:-1] = np.sort(g[0] + (g[-1] - g[0]) * np.array(sorted(rnd.random() for _ in range(n - 2))))
                     yield g2                                                    # same ends and size, other interior
+                if n >= 4:
+                    yield _semi_regular(rnd, n, lo, scale)                      # first step = mean step, irregular inside
+
+
+def _semi_regular(rnd, n, lo, scale):
+    """A NON-uniform grid whose first spacing equals its mean spacing (an O(1) look at the ends and the first step takes
+    it for evenly spaced): the uniform grid with its interior points from index 2 on displaced."""
+    g = lo + scale * np.arange(n, dtype=float)
+    for k in range(2, n - 1):
+        g[k] += scale * rnd.choice([-0.45, -0.3, 0.3, 0.45])
+    return np.sort(g)
 
 
 def _probe_values(grid, rnd):
@@ -258,6 +269,9 @@ def _c17d_cases(tier, seed):
                     g2 = base.copy()
                     g2[1:-1] = np.sort(base[0] + (base[-1] - base[0]) * np.array(sorted(rnd.random() for _ in range(len(base) - 2))))
                     grids[c] = g2 if c else base
+            if rep % 3 == 2:
+                for c in range(d):
+                    grids[c] = _semi_regular(rnd, rnd.choice([4, 5, 9]), rnd.choice([0.0, -3.0, 7.0]), rnd.choice(SCALES))
             rows = rnd.choice([1, 2, 5])
             data = np.column_stack([rnd.choice(list(_probe_values(g, rnd))) * np.ones(rows) if rows == 1 else
                                     np.array([rnd.choice(list(_probe_values(g, rnd))) for _ in range(rows)])
@@ -660,6 +674,12 @@ def _c19_env_cases(tier, seed):
             # losses need not be positive (a log-likelihood): zero and negative references
             yield {"first": rnd.choice([0.0, -1.0, -2.5, 3.0]),
                    "losses": [rnd.choice([0.0, -1.0, -2.0, -0.5, 1.0, -7.0, 4.0]) for _ in range(rnd.randint(1, 8))]}
+            continue
+        if rnd.random() < 0.25:
+            # tiny relative improvements and losses of tiny magnitude are improvements like any other
+            yield {"first": rnd.choice([2.0, 5e-9]),
+                   "losses": [rnd.choice([1.999998, 1.9999979, 1.99999789, 3.0, 5e-9, 4e-9, 1e-9, 1.0])
+                              for _ in range(rnd.randint(1, 8))]}
             continue
         yield {"first": rnd.choice([10.0, 1.0, 0.5, 1e-3, 7.0]),
                "losses": [rnd.choice([12.0, 9.0, 8.0, 0.4, 0.2, 1e-4, 6.5, 20.0]) for _ in range(rnd.randint(1, 8))]}
